@@ -1,6 +1,7 @@
 package rules
 
 import (
+	"go/token"
 	"fmt"
 	"math"
 	"go/types"
@@ -15,6 +16,40 @@ func init() {
 	register("C18", "Decides the structural clauses of enrichment: (R18.1) in GetReverseDnsForIPs the map key and the lookup argument are both the goroutine's own ip parameter, passed by value at the go statement from the loop variable, the key conversion string(ip) is the one EnrichWithReverseDns applies to the hop's / destination's own address, and the names are assigned to that very hop / destination; (R18.2) the failing branch of the lookup goroutine writes nothing and the function never returns an error, EnrichWithReverseDns returns nothing and never writes a hop list; (R18.3) in every instantiation of cache.GetWithExpiration Cache.Set is reached only on the callback's err == nil edge, the callback is not called on a hit and a hit returns the stored value; (R18.4) GetPublicIP ranges over the provider list in order, returns at the first nil-error answer and continues otherwise, and handleRequest marks the 4xx-status and invalid-body outcomes Permanent; (R18.5) map and accumulator accesses are under the mutex (C14 R14.2). Expiry timing of go-cache, the resolver's answers and completion orders beyond the lockset argument are not decided. No other outcome of a completely received answer that may carry a 4xx status is reported with a retryable error.", runC18)
 }
 
+// skipsEmptyOnly: block b (a latch that goes back to the loop header without passing the spawn) is reached only under the
+// condition len(<the range element>) == 0.
+func skipsEmptyOnly(c *Ctx, f *ssa.Function, b *ssa.BasicBlock, spawn *ssa.BasicBlock) bool {
+	conds, truth := domFacts(b)
+	// the skipping edge may be the branch itself (an empty `continue` block is fused away)
+	if iff, ok := b.Instrs[len(b.Instrs)-1].(*ssa.If); ok {
+		for i, sx := range b.Succs {
+			if sx.Dominates(b) && sx != b {
+				conds = append(conds, iff.Cond)
+				truth = append(truth, i == 0)
+			}
+		}
+	}
+	for i, cd := range conds {
+		bo, ok := cd.(*ssa.BinOp)
+		if !ok {
+			continue
+		}
+		k, isK := bo.Y.(*ssa.Const)
+		call, isCall := bo.X.(*ssa.Call)
+		if !isK || !isCall || k.Value == nil || k.Int64() != 0 {
+			continue
+		}
+		bi, isB := call.Common().Value.(*ssa.Builtin)
+		if !isB || bi.Name() != "len" || !isNamed(call.Common().Args[0].Type(), "net", "IP") {
+			continue
+		}
+		if bo.Op == token.EQL && truth[i] || bo.Op == token.NEQ && !truth[i] || bo.Op == token.GTR && !truth[i] {
+			return true
+		}
+	}
+	return false
+}
+
 func runC18(c *Ctx) {
 	R := c.R
 	// ---- R18.1 / R18.2 writer
@@ -26,10 +61,43 @@ func runC18(c *Ctx) {
 		spawns := spawnSites(f)
 		R.Floor("R18.1:spawns", len(spawns), 1)
 		for _, sp := range spawns {
-			g, ok := sp.(*ssa.Go)
+			g, isGo := sp.(*ssa.Go)
 			cl := spawnedClosure(c.P, sp)
-			if !ok || cl == nil || len(cl.Params) != 1 {
-				R.Fail("R18.1", fn+"#goroutine", sp.Pos(), fn, "the lookup goroutine does not take the address as its own parameter: it would capture the loop variable")
+			// the goroutine's own address: its parameter, or a captured per-iteration variable (allocated inside the loop body, so
+			// every goroutine has its own) that holds the range element
+			own := ""
+			var ownArg ssa.Value
+			if cl != nil && len(cl.Params) == 1 && isGo {
+				own = "param:" + cl.Params[0].Name()
+				ownArg = g.Call.Args[0]
+			} else if cl != nil && len(cl.Params) == 0 {
+				loop := innermostLoop(f, sp.Block())
+				for _, fv := range cl.FreeVars {
+					al, isAl := c.P.Binding(fv).(*ssa.Alloc)
+					if !isAl || loop == nil || !loop[al.Block()] {
+						continue
+					}
+					if pt, ok := al.Type().Underlying().(*types.Pointer); !ok || !isNamed(pt.Elem(), "net", "IP") {
+						continue
+					}
+					var st *ssa.Store
+					nst := 0
+					for _, r := range *al.Referrers() {
+						if x, ok := r.(*ssa.Store); ok && x.Addr == ssa.Value(al) {
+							st, nst = x, nst+1
+						}
+					}
+					if nst == 1 {
+						ownArg = st.Val
+						// terms of the closure resolve a captured single-assignment variable to the spawner's value
+						for _, pa := range firstPath(f, sp.Block()) {
+							own = core.NewEnv(c.P, pa).Term(ownArg).String()
+						}
+					}
+				}
+			}
+			if cl == nil || own == "" {
+				R.Fail("R18.1", fn+"#goroutine", sp.Pos(), fn, "the lookup goroutine has no address of its own (neither a parameter nor a per-iteration variable holding the range element)")
 				continue
 			}
 			// every address gets its own lookup: the go statement is passed on every iteration of the range loop
@@ -38,7 +106,11 @@ func runC18(c *Ctx) {
 				for b := range loop {
 					for _, sx := range b.Succs {
 						if loop[sx] && sx.Dominates(b) && sx != b && !sp.Block().Dominates(b) {
-							every = false
+							// an iteration that skips the goroutine: tolerated only for the empty address (len(elem) == 0), which
+							// cannot resolve and which no reader can ask for by its bytes
+							if !skipsEmptyOnly(c, f, b, sp.Block()) {
+								every = false
+							}
 						}
 					}
 				}
@@ -49,7 +121,7 @@ func runC18(c *Ctx) {
 			// argument at the go statement is the range element
 			for _, pa := range firstPath(f, sp.Block()) {
 				env := core.NewEnv(c.P, pa)
-				a := env.Term(g.Call.Args[0])
+				a := env.Term(ownArg)
 				ok := a.Op == "index" && len(f.Params) > 0 && a.Args[0].String() == "param:"+f.Params[0].Name()
 				R.Check(ok, "R18.1", fn+"#go-arg", sp.Pos(), fn, "the goroutine receives ips[i] by value", "the goroutine receives "+a.String())
 			}
@@ -82,7 +154,6 @@ func runC18(c *Ctx) {
 					R.Check(len(updates) == 0, "R18.2", key, cl.Pos(), core.FuncName(cl), "a failed lookup writes nothing", "a failed lookup still writes the result map")
 					continue
 				}
-				own := "param:" + cl.Params[0].Name()
 				ok := len(updates) == 1 && lookupArg != nil && lookupArg.String() == own
 				if ok {
 					k, v := updates[0].Elems[0], updates[0].Val
@@ -95,10 +166,10 @@ func runC18(c *Ctx) {
 			np = len(cases)
 			R.Floor("R18.1:goroutine-paths", np, 2)
 		}
-		rps, _ := core.ReturnPaths(c.P, f, 2000)
+		rps := InlinedPaths(c.P, f, inlineOpts{pkg: core.FuncPkg(f), stop: hasLoop})
 		okNil := len(rps) > 0
 		for _, rp := range rps {
-			if rp.Ret.Block().Comment != "recover" && !rp.Results[1].IsConst("nil") {
+			if len(rp.Results) < 2 || !rp.Results[1].IsConst("nil") {
 				okNil = false
 			}
 		}
@@ -112,7 +183,15 @@ func runC18(c *Ctx) {
 		fn := core.FuncName(e)
 		R.Check(e.Signature.Results().Len() == 0, "R18.2", fn+"#no-error", e.Pos(), fn, "enrichment cannot fail the request", "EnrichWithReverseDns now returns a value")
 		nst := 0
-		for _, b := range e.Blocks {
+		// the pass may be split over methods of the document's types (a per-run method that attaches the names)
+		var scope []*ssa.Function
+		for _, g := range ModReach(c.P, e) {
+			if core.FuncPkg(g) == core.FuncPkg(e) {
+				scope = append(scope, g)
+			}
+		}
+		for _, g := range scope {
+		for _, b := range g.Blocks {
 			for _, in := range b.Instrs {
 				st, ok := in.(*ssa.Store)
 				if !ok {
@@ -128,26 +207,60 @@ func runC18(c *Ctx) {
 					continue
 				}
 				if name != "ReverseDns" {
-					if root == ssa.Value(e.Params[0]) || isNamedStruct(fa.X.Type(), "result") {
+					if len(g.Params) > 0 && root == ssa.Value(g.Params[0]) || isNamedStruct(fa.X.Type(), "result") {
 						R.Fail("R18.2", fn+"#other-store["+name+"]", st.Pos(), fn, "enrichment writes the field "+name+" of the document: it may only attach names")
 					}
 					continue
 				}
 				nst++
-				for _, pa := range firstPath(e, b) {
+				// a store through a parameter of a helper reaches the document only if every caller passes an address inside the
+				// document, not the address of a copy (a range variable)
+				if pr, isParam := root.(*ssa.Parameter); isParam && g != e {
+					idx := 0
+					for k, q := range g.Params {
+						if q == pr {
+							idx = k
+						}
+					}
+					if n := c.P.CallGraph().Nodes[g]; n != nil {
+						for _, in := range n.In {
+							if in.Caller.Func == nil || !core.InModule(in.Caller.Func) || in.Site.Common().IsInvoke() || idx >= len(in.Site.Common().Args) {
+								continue
+							}
+							aroot, _ := addrRootFields(in.Site.Common().Args[idx])
+							if al, isAl := aroot.(*ssa.Alloc); isAl {
+								if _, isStruct := al.Type().Underlying().(*types.Pointer).Elem().Underlying().(*types.Struct); isStruct {
+									R.Fail("R18.1", fmt.Sprintf("%s#assign-to-copy[%s]", fn, core.FuncName(g)), in.Site.Pos(), fn, "the names are attached through "+core.FuncName(g)+" to a copy of the document's element ("+al.Name()+", a local variable): fields held by value (the destination) keep no names")
+								}
+							}
+						}
+					}
+				}
+				for _, pa := range firstPath(g, b) {
 					env := core.NewEnv(c.P, pa)
 					owner := env.Term(fa.X)
 					v := env.Term(st.Val)
+					// the map is what the batch lookup returned (handed down as a parameter, if the store sits in a helper)
+					fromBatch := v.Op == "lookup" && strings.Contains(v.Args[0].String(), "GetReverseDnsForIPs")
+					if lk, isLk := st.Val.(*ssa.Lookup); isLk && !fromBatch {
+						if ex, isEx := c.P.DefX(lk.X).(*ssa.Extract); isEx {
+							if call, isCall := ex.Tuple.(*ssa.Call); isCall && call.Common().StaticCallee() != nil && core.FuncName(call.Common().StaticCallee()) == "reversedns.GetReverseDnsForIPs" {
+								fromBatch = true
+							}
+						}
+					}
 					// v = lookup(map, conv[string](X.IPAddress)) with X the owner
 					ok := v.Op == "lookup" && v.Args[1].Op == "conv" && v.Args[1].Name == "string" && v.Args[1].Args[0].Op == "field" && v.Args[1].Args[0].Name == "IPAddress" &&
-						sameOwner(v.Args[1].Args[0].Args[0], owner) && strings.Contains(v.Args[0].String(), "GetReverseDnsForIPs")
+						sameOwner(v.Args[1].Args[0].Args[0], owner) && fromBatch
 					R.Check(ok, "R18.1", fmt.Sprintf("%s#assign[%s]", fn, ownerKind(owner)), st.Pos(), fn, "names = map[string(own address)] assigned to the owner of that address", "names assigned to "+owner.String()+" come from "+v.String())
 				}
 			}
 		}
+		}
 		R.Floor("R18.1:reader-assignments", nst, 2)
 		// hop lists are never written
-		for _, b := range e.Blocks {
+		for _, g := range scope {
+		for _, b := range g.Blocks {
 			for _, in := range b.Instrs {
 				if call, ok := in.(*ssa.Call); ok {
 					if bi, ok := call.Common().Value.(*ssa.Builtin); ok && bi.Name() == "append" {
@@ -160,6 +273,7 @@ func runC18(c *Ctx) {
 					}
 				}
 			}
+		}
 		}
 	}
 	// ---- R18.3 cache
